@@ -561,3 +561,89 @@ def _mse_loss(a, b, reduction="mean"):
 
 
 FN["mse_loss"] = _mse_loss
+
+
+# ---- split / flip / random sources
+def _split(t, size, dim=0):
+    d = norm_dim(dim, t.rank)
+    n = t.shape[d]
+    if not isinstance(size, int):
+        size = simp_int(size)
+    if isinstance(size, int) and isinstance(n, int):
+        out = []
+        k = 0
+        while k < n:
+            idx = [slice(None)] * t.rank
+            idx[d] = slice(k, min(k + size, n))
+            out.append(ops.getitem(t, tuple(idx)))
+            k += size
+        return tuple(out)
+    # symbolic chunk size: the number of chunks must be concrete: n = c * size
+    c = ops._cancel_factor(zint(n), zint(size)) if is_z3(n) else None
+    c = simp_int(c) if c is not None else None
+    if not isinstance(c, int):
+        raise Unsupported("split into a symbolic number of chunks")
+    out = []
+    for j in range(c):
+        idx = [slice(None)] * t.rank
+        idx[d] = slice(simp_int(ops.scalar_binop("mul", j, size, wf=False)), simp_int(ops.scalar_binop("mul", j + 1, size, wf=False)))
+        out.append(ops.getitem(t, tuple(idx)))
+    return tuple(out)
+
+
+TM["split"] = _split
+TF["split"] = _split
+
+
+def _unbind(t, dim=0):
+    d = norm_dim(dim, t.rank)
+    n = t.shape[d]
+    if not isinstance(n, int):
+        raise Unsupported("unbind along symbolic dim")
+    out = []
+    for k in range(n):
+        idx = [slice(None)] * t.rank
+        idx[d] = k
+        out.append(ops.getitem(t, tuple(idx)))
+    return tuple(out)
+
+
+TM["unbind"] = _unbind
+TF["unbind"] = _unbind
+TF["hstack"] = lambda ts: ops.cat(list(ts), 0 if list(ts)[0].rank == 1 else 1)
+
+
+def _flip(t, *dims):
+    dims = ops._shape_args(dims)
+    ds = [norm_dim(d, t.rank) for d in dims]
+    s_ = t.snap()
+    shape = t.shape
+
+    def elem(I):
+        J = list(I)
+        for d in ds:
+            J[d] = ops.simp_sub(ops.simp_sub(shape[d], 1), I[d])
+        return s_(tuple(J))
+
+    return mk(t.shape, t.dtype, elem, grad=t.requires_grad)
+
+
+TM["flip"] = _flip
+TF["flip"] = lambda t, dims: _flip(t, *dims)
+
+_RAND = [0]
+
+
+def _rand(*size, **kw):
+    """torch.rand: an arbitrary tensor with entries in [0, 1) (assumed sampler contract, A10)."""
+    from .core import input_tensor
+
+    shape = ops._shape_args(size)
+    _RAND[0] += 1
+    t = input_tensor(f"rand{_RAND[0]}", shape, "f")
+    s_ = t.snap()
+    ops.assume_forall(shape, lambda I: z3.And(s_(I) >= 0, s_(I) < 1))
+    return t
+
+
+TF["rand"] = _rand
